@@ -15,6 +15,7 @@
 #include "ptrheap.h"
 #include "timerqueue.h"
 
+#include "allocwrap.h"
 #include "vtrace.h"
 
 #define MAXEL 4096
@@ -30,6 +31,27 @@ static int count;
 #define MAXNOTES 65536
 static long long notes[MAXNOTES][2];
 static size_t nnotes;
+
+static int
+parse_fail(const char * l)
+{
+	long k;
+	char mode[16];
+
+	if (sscanf(l, "fail %ld %15s", &k, mode) == 2) {
+		aw_plan(k, strcmp(mode, "persist") == 0);
+		return (1);
+	}
+	return (0);
+}
+
+static void
+common(void)
+{
+
+	vt_int("inj", aw_injected());
+	aw_clear_injected();
+}
 
 static int
 compar(void * cookie, const void * x, const void * y)
@@ -108,6 +130,8 @@ run_heap(FILE * f)
 			continue;
 		if (strcmp(op, "end") == 0)
 			break;
+		if (parse_fail(line))
+			continue;
 		if (stop)
 			continue;
 		if (strcmp(op, "create") == 0) {
@@ -128,14 +152,18 @@ run_heap(FILE * f)
 			H = ptrheap_create(compar, setrc, NULL, n, ptrs);
 			count = (int)n;
 			vt_begin("h_create"); vt_ints("els", ids, n); vt_ints("keys", keys, n);
-			vt_bool("ok", H != NULL); vt_notes(); vt_end();
-			if (H == NULL)
-				stop = 1;
+			vt_bool("ok", H != NULL); vt_notes(); common(); vt_end();
+			if (H == NULL) {
+				for (i = 1; i <= MAXEL; i++) els[i].in = 0;
+				count = 0;
+			}
 			continue;
 		}
 		if (H == NULL) {
 			H = ptrheap_init(compar, setrc, NULL);
-			if (H == NULL) { stop = 1; continue; }
+			vt_begin("h_init"); vt_bool("ok", H != NULL); common(); vt_end();
+			if (H == NULL)
+				continue;
 		}
 		if (strcmp(op, "add") == 0) {
 			int rc;
@@ -144,7 +172,7 @@ run_heap(FILE * f)
 			els[a].key = b;
 			rc = ptrheap_add(H, &els[a]);
 			if (rc == 0) { els[a].in = 1; count++; }
-			vt_begin("h_add"); vt_int("el", a); vt_int("key", b); vt_int("rc", rc); vt_notes(); vt_end();
+			vt_begin("h_add"); vt_int("el", a); vt_int("key", b); vt_int("rc", rc); vt_notes(); common(); vt_end();
 		} else if (strcmp(op, "getmin") == 0) {
 			do_getmin(H);
 		} else if (strcmp(op, "delete") == 0) {
@@ -214,6 +242,8 @@ run_heap(FILE * f)
 		}
 	}
 	ptrheap_free(H);
+	{ long nallocs = aw_count(); aw_plan(0, 0);
+	vt_begin("end"); vt_int("live", aw_live()); vt_int("allocs", nallocs); vt_end(); }
 }
 
 /* ---- timer queue ---- */
@@ -250,13 +280,19 @@ run_tq(FILE * f)
 	for (i = 1; i <= MAXEL; i++) {
 		tents[i].id = i; tents[i].in = 0; tents[i].cookie = NULL;
 	}
-	Q = timerqueue_init();
+	Q = NULL;
 	while (fgets(line, sizeof(line), f) != NULL) {
 		a = b = c = 0;
 		if (sscanf(line, "%31s %ld %ld %ld", op, &a, &b, &c) < 1)
 			continue;
 		if (strcmp(op, "end") == 0)
 			break;
+		if (parse_fail(line))
+			continue;
+		if (Q == NULL && !stop) {
+			Q = timerqueue_init();
+			vt_begin("t_init"); vt_bool("ok", Q != NULL); common(); vt_end();
+		}
 		if (stop || Q == NULL)
 			continue;
 		if (strcmp(op, "tadd") == 0) {
@@ -266,7 +302,7 @@ run_tq(FILE * f)
 			tents[a].cookie = timerqueue_add(Q, &tv, &tents[a]);
 			if (tents[a].cookie != NULL) { tents[a].in = 1; tents[a].s = b; tents[a].u = c; n++; }
 			vt_begin("t_add"); vt_int("id", a); vt_int("s", b); vt_int("u", c);
-			vt_bool("ok", tents[a].cookie != NULL); vt_end();
+			vt_bool("ok", tents[a].cookie != NULL); common(); vt_end();
 		} else if (strcmp(op, "tdelete") == 0) {
 			if (a < 1 || a > MAXEL || !tents[a].in)
 				continue;
@@ -309,6 +345,8 @@ run_tq(FILE * f)
 		vt_begin("t_end"); vt_end();
 	}
 	timerqueue_free(Q);
+	{ long nallocs = aw_count(); aw_plan(0, 0);
+	vt_begin("end"); vt_int("live", aw_live()); vt_int("allocs", nallocs); vt_end(); }
 }
 
 int
@@ -323,10 +361,12 @@ main(int argc, char ** argv)
 	}
 	if ((f = fopen(argv[1], "r")) == NULL) { perror(argv[1]); return (3); }
 	vt_open(argv[2]);
+	aw_enable(1);
 	while (fgets(line, sizeof(line), f) != NULL) {
 		if (sscanf(line, "prog %31s", kind) != 1)
 			continue;
 		vt_reset();
+		aw_reset();
 		if (strcmp(kind, "heap") == 0)
 			run_heap(f);
 		else
